@@ -685,6 +685,24 @@ inline CircuitSpec decodeSpec(Tape &t) {
   return s;
 }
 
+/// Optional literal nets after a literal spec: [nnets, (deg, (cell,xo,yo)*)*].
+inline void decodeNets(Tape &t, CircuitSpec &s) {
+  int n = s.cells.size();
+  if (n == 0) return;
+  int nn = (int)(t.next() % 17);
+  for (int k = 0; k < nn; ++k) {
+    NetSpec net;
+    int deg = (int)(t.next() % 9);
+    for (int q = 0; q < deg; ++q) {
+      net.cells.push_back((int)(t.next() % (uint32_t)n));
+      int xo = (int)(int32_t)t.next(), yo = (int)(int32_t)t.next();
+      net.xo.push_back(std::max(-(1 << 20), std::min(xo, 1 << 20)));
+      net.yo.push_back(std::max(-(1 << 20), std::min(yo, 1 << 20)));
+    }
+    if (deg > 0) s.nets.push_back(net);
+  }
+}
+
 // ---------------------------------------------------------------------------
 struct ParamOpts {
   bool global = false;      // also draw global-placement parameters
